@@ -1,5 +1,5 @@
 (* C04 — every destination receives exactly its configured share. *)
-From C4E Require Import Base Minter Distributor DistrCoins DistrProofs Drift.
+From C4E Require Import Base Minter Distributor DistrCoins DistrProofs Drift Books DistrNz Ledger LedgerProofs.
 From C4EProps Require C03.
 Open Scope Z_scope.
 
@@ -82,3 +82,25 @@ Example C04_example :
                           [333666666666666666333; 333666666666666666333]]
   | _ => False end.
 Proof. vm_compute. reflexivity. Qed.
+
+(* ---------------------------------------------------------------------------------------------------------------
+   the whole-history statement: what every account of the configuration has been credited (balance in 10^-18 units plus
+   recorded remains, so fractions are carried forward and nothing drifts) is what the credited-amounts machine computes —
+   every sub-distributor takes what its sources have been credited, every named share and the burn are credited the
+   truncated fraction of that inflow and the primary destination the rest (Ledger.a_sub) — for any history of inflows and
+   blocks and whatever payouts fail.  Hypotheses as in C14 (no alias of the main account, no identifier shared by accounts
+   of different types, MAIN first among the sources, no failing sweep). *)
+Theorem C04_credited_amounts_follow_the_share_machine :
+  forall Acct bk, acct_universe Acct bk -> forall ops w (st : Z -> aled),
+  lwinv Acct bk w -> Forall (lop_ok Acct) ops -> (forall d, LRep Acct bk d (st d) w) ->
+  exists w', lrun w ops = Ok w' /\ lwinv Acct bk w' /\ dw_subs w' = dw_subs w /\ forall d, LRep Acct bk d (a_run (dw_subs w) d (st d) ops) w'.
+Proof. exact ledger_refinement. Qed.
+Print Assumptions C04_credited_amounts_follow_the_share_machine.
+
+(* in that machine a named share is credited exactly the truncated fraction of the inflow, and the remainder is reduced by it *)
+Theorem C04_machine_credits_the_truncated_share :
+  forall sh t inflow st dflt, da_type (sh_dest sh) <> T_MAIN ->
+  a_shares (sh :: t) inflow st dflt =
+  a_shares t inflow (a_credit (sh_dest sh) (dec_mul_trunc inflow (sh_share sh)) st) (dflt - dec_mul_trunc inflow (sh_share sh)).
+Proof. intros sh t inflow st dflt H. cbn [a_shares]. replace (da_type (sh_dest sh) =? T_MAIN) with false by lia. reflexivity. Qed.
+Print Assumptions C04_machine_credits_the_truncated_share.
